@@ -39,6 +39,10 @@ class Row:
     def calls(self, pat):
         return [e[1] for e in self.effects if e[0] == 'call' and re.search(pat, short(e[1][1]))]
 
+    def events(self):
+        """effects without loop markers"""
+        return [e for e in self.effects if e[0] != 'loop']
+
     def stores(self):
         return [(e[1], e[2]) for e in self.effects if e[0] == 'store']
 
@@ -52,7 +56,7 @@ class Row:
 
     def __repr__(self):
         return 'Row(%s => %s | %s | %s)' % ([(tstr(c, 80), v) for c, v in self.conds], tstr(self.ret, 120) if self.ret else None,
-                                            [tstr(e[1], 60) for e in self.effects], self.end)
+                                            [('%s := %s' % (tstr(e[1], 60), tstr(e[2], 60)) if e[0] == 'store' else tstr(e[1], 60)) for e in self.effects], self.end)
 
 
 class _State:
@@ -115,6 +119,48 @@ class Sym:
         self.maxrows = maxrows
         self.loop_unroll = loop_unroll
         self.out = []
+        self.loops = body.loops()
+        self._mods = {}
+
+    # ------------------------------------------------------------------ loops
+    def loop_mods(self, h):
+        """(locals assigned inside the loop with header h, does the loop write through references?)"""
+        if h in self._mods:
+            return self._mods[h]
+        b = self.b
+        mods, deref = set(), False
+        refs = {}
+        for bi in self.loops[h]:
+            for s in b.blocks[bi]['stmts']:
+                if s['k'] != 'assign':
+                    continue
+                p = s['p']
+                if '*' in p['pr']:
+                    deref = True
+                else:
+                    mods.add(p['l'])
+                r = s['r']
+                if r['k'] in ('ref', 'rawptr') and r.get('mut') and '*' not in r['p']['pr']:
+                    mods.add(r['p']['l'])
+            t = b.blocks[bi]['term']
+            if t['k'] == 'call':
+                if '*' in t['dest']['pr']:
+                    deref = True
+                else:
+                    mods.add(t['dest']['l'])
+                deref = True   # a call may write through any reference it is given
+        self._mods[h] = (mods, deref)
+        return self._mods[h]
+
+    def havoc(self, st, h):
+        mods, deref = self.loop_mods(h)
+        for l in sorted(mods):
+            if 1 <= l <= self.b.j['arg_count'] and False:
+                continue
+            st.env[l] = ('phi', h, l, self.read_local(st, l))
+        if deref:
+            st.heap = {}
+        st.effects.append(('loop', h))
 
     # ------------------------------------------------------------------ values
     def default_local(self, l):
@@ -312,12 +358,17 @@ class Sym:
                 st.path.append(blk)
                 self.emit(st, ('stop', blk))
                 return
-            first = False
             n = st.count.get(blk, 0)
             if n > self.loop_unroll:
+                if blk in self.loops and not first:
+                    # second arrival at an abstracted loop header: this path is an earlier iteration, already covered by the havoc
+                    return
                 st.path.append(blk)
                 self.emit(st, ('stop', blk))
                 return
+            if blk in self.loops and not first and n == 0:
+                self.havoc(st, blk)
+            first = False
             st.count[blk] = n + 1
             st.path.append(blk)
             block = b.blocks[blk]
@@ -456,6 +507,17 @@ class Sym:
                 r = self.apply(st, f, list(tup[3]), lambda s2, v: self.after(s2, dest, v, target, blk), blk)
                 if r is not NotImplemented:
                     return None
+        # trivial getters (`fn f(&self) -> T { self.a.b }`) are field reads
+        gt = getters(self.facts)
+        gp = c.get('resolved') if c.get('resolved') in gt else (path if path in gt and not c.get('trait') else None)
+        if gp is not None and len(args) == 1:
+            v = args[0]
+            for fld in gt[gp]:
+                if v[0] == 'agg' and isinstance(v[3], dict) and fld in v[3]:
+                    v = v[3][fld]
+                else:
+                    v = ('f', v, fld)
+            return done(v)
         # local helper that is not part of the vocabulary: unfold
         tgt = c.get('resolved') if c.get('resolved') in self.facts.bodies else (path if path in self.facts.bodies and not c.get('trait') else None)
         if tgt is not None and self.unfold is not None and self.unfold(tgt) and self.depth < 4:
@@ -767,3 +829,78 @@ def by_cstr(mapping):
     def atoms(t):
         return mapping.get(cstr(t))
     return atoms
+
+
+def loop_rows(facts, body, header, env_extra=None, unfold='default'):
+    """Path summaries of ONE iteration of the natural loop `header` (from the header back to it, to an enclosing header, or
+    out of the function). Locals that the loop does not modify are bound to the value they have on arrival at the loop
+    (when all arrival paths agree); inner loops are abstracted (havoc + last partial iteration)."""
+    from .inline import vocab
+    uf = (lambda p: p not in vocab() and facts.bodies[p].j.get('kind') != 'Closure') if unfold == 'default' else unfold
+    loops = body.loops()
+    if header not in loops:
+        raise KeyError('no loop at block %d' % header)
+    s0 = Sym(facts, body, start=0, stop={header}, unfold=uf)
+    mods, _ = s0.loop_mods(header)
+    arrive = [r for r in s0.rows() if r.end == ('stop', header)]
+    env = {}
+    if arrive:
+        for l, v in arrive[0].env.items():
+            if l in mods or l == 0:
+                continue
+            k = cstr(v)
+            if all(l in r.env and cstr(r.env[l]) == k for r in arrive[1:]):
+                env[l] = v
+    if env_extra:
+        env.update(env_extra)
+    enclosing = {h for h, blks in loops.items() if header in blks and h != header}
+    return Sym(facts, body, start=header, stop={header} | enclosing, env=env, unfold=uf).rows()
+
+
+def innermost_loop(body, block):
+    loops = body.loops()
+    hs = [h for h, blks in loops.items() if block in blks]
+    return min(hs, key=lambda h: len(loops[h])) if hs else None
+
+
+def find(t, pred):
+    """first subterm satisfying pred"""
+    from .mir import subterms
+    for s in subterms(t):
+        if pred(s):
+            return s
+    return None
+
+
+def getters(facts):
+    """{body path: [field, ...]} for functions that only return a (nested) field of their single parameter."""
+    g = facts.__dict__.get('_getters')
+    if g is not None:
+        return g
+    out = {}
+    facts.__dict__['_getters'] = out
+    for rnd in range(3):
+        new = {}
+        for p, b in facts.bodies.items():
+            j = b.j
+            if p in out or j.get('arg_count') != 1 or len(j['blocks']) > 5 or j.get('kind') == 'Closure':
+                continue
+            if rnd == 0 and any(blk['term']['k'] == 'call' for blk in j['blocks']):
+                continue
+            try:
+                rows = Sym(facts, b).rows()
+            except Exception:
+                continue
+            if len(rows) != 1 or rows[0].end != 'return' or rows[0].effects or rows[0].conds or rows[0].ret is None:
+                continue
+            t = rows[0].ret
+            chain = []
+            while t[0] == 'f' and isinstance(t[2], str):
+                chain.append(t[2])
+                t = t[1]
+            if chain and t[0] == 'v' and t[2] == 1:
+                new[p] = list(reversed(chain))
+        if not new:
+            break
+        out.update(new)
+    return out
